@@ -75,9 +75,10 @@ def _matches(exp: str, got: str) -> bool:
     return exp == got or (exp == "rejected" and got != "ok")
 
 
-def _event(op: dict, res: str, used: str, obs: dict) -> dict:
+def _event(op: dict, res: str, used: str, usedpx: str, obs: dict) -> dict:
     return {"k": op["k"], "set": op["set"], "n": op["n"], "a": op["a"], "res": res, "used": used,
-            "eff": {st: [W.show(r) for r in v] for st, v in obs["eff"].items()}, "gate": obs["gate"]}
+            "usedpx": usedpx, "eff": {st: [W.show(r) for r in v] for st, v in obs["eff"].items()},
+            "px": obs["px"], "gate": obs["gate"]}
 
 
 def _ov_to_init(state: dict, n: int) -> dict:
@@ -86,7 +87,8 @@ def _ov_to_init(state: dict, n: int) -> dict:
     return init
 
 
-def _compare(world: W.World, edge: dict, res: str, used: str, obs: dict, defaults: dict) -> str:
+def _compare(world: W.World, edge: dict, res: str, used: str, usedpx: str, obs: dict, defaults: dict,
+             pxtab: dict) -> str:
     """'' if the real observation equals the edge's projection, else what differs (text only)."""
     op = edge["op"]
     to = op["exp"]
@@ -95,6 +97,12 @@ def _compare(world: W.World, edge: dict, res: str, used: str, obs: dict, default
         return f"result {res!r}, spec {op['res']!r}"
     if op["k"] == "render" and used != op["used"]:
         return f"render framed as {used!r}, spec {op['used']!r}"
+    if op["k"] == "render" and usedpx not in pxtab[op["um"]]:
+        return f"render transmitted {usedpx} px data, spec (method {op['um']}) {pxtab[op['um']]}"
+    for i, p in enumerate(obs["px"]):
+        if p != "skip" and p not in pxtab[to["m"][i]]:
+            return (f"node {i + 1}: render without override transmitted {p} px data, spec (effective method "
+                    f"{to['m'][i]}) {pxtab[to['m'][i]]}")
     for st in W.FAM_SETTINGS[world.fam]:
         got = [W.show(r) for r in obs["eff"][st]]
         if got[0] == "skip:0":
@@ -115,7 +123,9 @@ def replay_walk(task: dict) -> dict:
     first = walk[0]["from"]
     fam, cur = first["fam"], first["cur"]
     par, nc = task["par"], task["nc"]
-    world = W.World(fam, par, nc, wseed)
+    gt = task["geos"][(task["idx"] + task["wseed"]) % len(task["geos"])]
+    world = W.World(fam, par, nc, wseed, gt["g"])
+    pxtab = gt["px"]
     out = {"steps": 0, "mismatches": [], "abandoned": False, "resyncs": 0}
     try:
         init = _ov_to_init(first, world.n)
@@ -124,15 +134,15 @@ def replay_walk(task: dict) -> dict:
             op = {k: edge["op"][k] for k in ("k", "set", "n")}
             op["a"] = W.unshow(edge["op"]["a"])
             last = i == len(walk) - 1
-            res, used = world.do(op)
+            res, used, usedpx = world.do(op)
             obs = world.observe(render=(cur == "rm" or last), gate=(cur == "fs" or last))
             out["steps"] += 1
-            events.append(_event(op, res, used, obs))
-            diff = _compare(world, edge, res, used, obs, defaults)
+            events.append(_event(op, res, used, usedpx, obs))
+            diff = _compare(world, edge, res, used, usedpx, obs, defaults, pxtab)
             if not diff:
                 continue
             out["mismatches"].append(
-                {"fam": fam, "par": par, "nc": nc, "init": init, "ev": events, "wseed": wseed,
+                {"fam": fam, "par": par, "nc": nc, "geo": world.geo, "init": init, "ev": events, "wseed": wseed,
                  "diff": diff, "walk": task["idx"], "step": i, "edge": edge})
             # resynchronise the real classes with the spec state and go on (keeps edge coverage)
             init = _ov_to_init(edge["to"], world.n)
@@ -145,7 +155,7 @@ def replay_walk(task: dict) -> dict:
             out["resyncs"] += 1
             obs = world.observe(render=True, gate=True)
             if _compare(world, {"op": {"res": "ok", "k": "sync", "exp": edge["op"]["exp"]}, "to": edge["to"]},
-                        "ok", "", obs, defaults):
+                        "ok", "", "", obs, defaults, pxtab):
                 out["abandoned"] = True
                 break
     finally:
@@ -211,7 +221,7 @@ def gen_ops(rng: random.Random, fam: str, par, nc, length: int) -> list[dict]:
 def record(task: dict) -> dict:
     """Run a history on the real code and record it (pool worker)."""
     fam, par, nc = task["fam"], task["par"], task["nc"]
-    world = W.World(fam, par, nc, task["wseed"])
+    world = W.World(fam, par, nc, task["wseed"], task.get("geo"))
     try:
         init = task.get("init") or W.clean_init(world.n)
         if task.get("init"):
@@ -221,35 +231,38 @@ def record(task: dict) -> dict:
                 raise tlc.MachineryError(f"c20: the scenario's start state cannot be re-created: {e}") from e
         ev = []
         for op in task["ops"]:
-            res, used = world.do(op)
-            ev.append(_event(op, res, used, world.observe(render=True, gate=True)))
+            res, used, usedpx = world.do(op)
+            ev.append(_event(op, res, used, usedpx, world.observe(render=True, gate=True)))
     finally:
         world.close()
-    return {"fam": fam, "par": par, "nc": nc, "init": init, "ev": ev}
+    return {"fam": fam, "par": par, "nc": nc, "geo": world.geo, "init": init, "ev": ev}
 
 
 # ------------------------------------------------------------------ verdicts
 def _trace_json(t: dict) -> dict:
-    return {k: t[k] for k in ("fam", "par", "nc", "init", "ev")}
+    return {k: t[k] for k in ("fam", "par", "nc", "geo", "init", "ev")}
 
 
 def _scenario(t: dict, wseed: int) -> dict:
-    return {"fam": t["fam"], "par": t["par"], "nc": t["nc"], "init": t["init"], "wseed": wseed,
+    return {"fam": t["fam"], "par": t["par"], "nc": t["nc"], "geo": t["geo"], "init": t["init"], "wseed": wseed,
             "ops": [{k: e[k] for k in ("k", "set", "n", "a")} for e in t["ev"]]}
 
 
 def _describe(t: dict, v: dict) -> str:
     at = v["at"]
     lines = [f"clause {v['verdict']!r} about {W.LONG.get(v['set'], v['set'])} at operation {at} of {len(t['ev'])}; "
-             f"family {t['fam']}, tree par={t['par']} (classes 1..{t['nc']}, 1 = the real style class)"]
+             f"family {t['fam']}, tree par={t['par']} (classes 1..{t['nc']}, 1 = the real style class), "
+             f"geometry {t['geo']}"]
     for i, e in enumerate(t["ev"][:at], 1):
         what = {"set": f"set {W.LONG[e['set']]} = {W.show(e['a'])}", "unset": f"unset {W.LONG[e['set']]}",
                 "render": f"render override={W.show(e['a'])}"}[e["k"]]
-        lines.append(f"  {i}. node {e['n']}: {what} -> {e['res']}{(' framed ' + e['used']) if e['used'] else ''}")
+        lines.append(f"  {i}. node {e['n']}: {what} -> {e['res']}"
+                     f"{(' framed ' + e['used'] + ', data ' + e['usedpx'] + ' px') if e['used'] else ''}")
     if 0 < at <= len(t["ev"]):
         e = t["ev"][at - 1]
         st = v["set"] if v["set"] in e["eff"] else e["set"]
         lines.append(f"  observed {W.LONG[st]} per node: {e['eff'][st]}")
+        lines.append(f"  observed data size (px) of the no-override render per node: {e['px']}")
         lines.append(f"  observed instantiation gate: {e['gate']}")
     return "\n".join(lines)
 
@@ -300,7 +313,7 @@ def _replay(rep: Report, replay: dict) -> None:
             rep.violation(f"design:StyleSettings:{res.violated}", res.error_text[:1500], sc)
         return
     stubs.install()
-    t = record({"fam": sc["fam"], "par": sc["par"], "nc": sc["nc"], "init": sc.get("init"),
+    t = record({"fam": sc["fam"], "par": sc["par"], "nc": sc["nc"], "init": sc.get("init"), "geo": sc.get("geo"),
                 "ops": sc["ops"], "wseed": sc.get("wseed", 0)})
     rep.evaluations += len(t["ev"])
     t["wseed"] = sc.get("wseed", 0)
@@ -373,17 +386,18 @@ def main(rep: Report, replay: dict | None) -> None:
             lap("wait_edge_dump")
             g = graph.from_result(res_e)
             defaults = {}
-            tree = None
+            tree = geos = None
             for d in res_e.tagged("DEFAULTS"):
                 defaults[d["fam"]] = {x["set"]: x["v"] for x in d["eff"]}
                 tree = (d["par"], d["nc"])
+                geos = d["geos"]
             if not g.edges or tree is None or set(defaults) != {"kitty", "iterm2"}:
                 raise tlc.MachineryError("c20: edge dump is empty / has no DEFAULTS line")
             walks = g.walks(max_len=60)
             if g.unreachable_edges:
                 raise tlc.MachineryError(f"c20: {g.unreachable_edges} dumped edges are unreachable")
             wtasks = [{"idx": i, "walk": w, "defaults": defaults[w[0]["from"]["fam"]], "par": tree[0],
-                       "nc": tree[1], "wseed": rep.seed * 1000003 + i} for i, w in enumerate(walks)]
+                       "nc": tree[1], "geos": geos, "wseed": rep.seed * 1000003 + i} for i, w in enumerate(walks)]
             wtasks.sort(key=lambda t: -len(t["walk"]))
             lap("build_walks")
             results = pool.map(replay_walk, wtasks, chunksize=2)
